@@ -57,7 +57,7 @@ manifest = {
     },
     "engines": [
         {"name": "hypothesis-pbt", "path": "/verif/vlib/runner.py", "serves_properties": [c["property_id"] for c in checks],
-         "kind_free_text": "Hypothesis 6.168 strategies (op-list histories, grammars, mutations) + finite enumerations, seeded from VERIF_SEED; in-memory transport (vlib/memstream.py) and virtual clock (vlib/vtime.py) make segmentation, schedules, crash points and time generated values; thorough tier shards over 16 processes"},
+         "kind_free_text": "Hypothesis 6.168 strategies (op-list histories, grammars, mutations) + finite enumerations, seeded from VERIF_SEED; in-memory transport (vlib/memstream.py) and virtual clock (vlib/vtime.py) make segmentation, schedules, crash points and time generated values; thorough tier shards over 16 processes plus a coverage-guided shard (atheris/libFuzzer mutating the buffer Hypothesis decodes, same strategy and oracle, failures shrunk by Hypothesis and re-confirmed uninstrumented)"},
     ],
     "checks": checks,
     "not_applicable": na,
